@@ -234,7 +234,7 @@ Fixpoint pts_from (i : Z) (vals : list (option num)) : list pt :=
     characters survives verbatim), c:ptCount val = len(values), one c:pt per value that is not
     None, idx = its position. *)
 Definition num_cache (fmt : str) (vals : list (option num)) : cache :=
-  mkCache (Some (fmt)) [Z.of_nat (length vals)] (pts_from 0 vals).
+  mkCache (Some fmt) [Z.of_nat (length vals)] (pts_from 0 vals).
 
 Fixpoint enum_pts (i : Z) (l : list str) : list pt :=
   match l with [] => [] | s :: r => mkPt i s :: enum_pts (i + 1) r end.
@@ -252,14 +252,14 @@ Definition write_cat (d1904 : bool) (f : list cat_tree) (fmt : option str) : res
       let count := leaves_f f in
       let first_numeric := match f with t :: _ => is_numeric_label (tree_label t) | [] => false end in
       if Nat.eqb d 1 && first_numeric then
-        Ok (mkCatx 1 (Some ((cats_number_format f fmt d))) [count]
-              (enum_pts 0 (map (fun t => (label_numstr d1904 (tree_label t))) f)) [])
+        Ok (mkCatx 1 (Some (cats_number_format f fmt d)) [count]
+              (enum_pts 0 (map (fun t => label_numstr d1904 (tree_label t)) f)) [])
       else if Nat.eqb d 1 then
         Ok (mkCatx 0 None [count]
-              (enum_pts 0 (map (fun t => (label_str (tree_label t))) f)) [])
+              (enum_pts 0 (map (fun t => label_str (tree_label t)) f)) [])
       else
         Ok (mkCatx 2 None [count] []
-              (map (map (fun il => mkPt (fst il) ((label_str (snd il))))) (levels f)))
+              (map (map (fun il => mkPt (fst il) (label_str (snd il)))) (levels f)))
   end.
 
 Definition others (tags : list N) : list child := map (fun t => KOther t 0) tags.
